@@ -268,6 +268,19 @@ def check(ctx):
                    False, unproven=True, detail=short(dist_node))
         else:
             ident = _site(ctx, fb, "distribution transform", pb.bij(parts[1]), -1)
+        # which bijector: the given class, or -- only when none was given -- the default
+        ok_sel = False
+        if ident is not None and ident[0] == "phi" and ident[1] == (
+                "cmp", "is", n("bijector_cls"), c(None)):
+            dflt, given = ident[2], ident[3]
+            ok_sel = (given[0] == "call" and given[1] == n("bijector_cls")
+                      and dflt[0] == "call" and dflt[1][0] == "a"
+                      and dflt[1][2] == "experimental_default_event_space_bijector"
+                      and dflt[2] == given[2] and dflt[3] == given[3])
+        ctx.ob("C14.R1", fb, "the bijector is the given class applied to the bijector "
+                             "arguments; the distribution's default event-space bijector is "
+                             "used only when no class was given", ok_sel,
+               detail=short(ident or (), 160), stmt="bijector selection")
         _site(ctx, fb, "initial value of the new variable", pb.apply(init_val), -1, ident)
         vn = [val for loc, val, _, _ in rb.stores if loc == ("a", n("var"), "value_node")]
         okv = len(vn) == 1 and is_call(vn[0], f"{NODES}.Calc") and vn[0][2] \
